@@ -227,7 +227,9 @@ class Check(PropertyCheck):
                   "relative_path_of_absolute, relative_path_of_plain, relative_path_is_absolute; load(opts, text, cwd) is an operation of "
                   "the histories (the rewriting of the `scripts` entry over a list / a str / None / a non-iterable, UTF-8 decoding imported "
                   "from C35, then update_defer): load_makes_scripts_absolute, load_without_scripts, load_without_cwd; config_roundtrip_nondefault for any YAML with "
-                  "parse(dump d)=d (+partial/counterexample for U+0085, F-C44b). Model tied to the real OptManager by differential "
+                  "parse(dump d)=d (+partial/counterexample for U+0085, F-C44b), and — for the nested model the driver executes, i.e. histories "
+                  "with acting listeners — config_roundtrip_nondefault_nested(_partial); accepted_update_notifies_assigned_names_nested (every "
+                  "concerned listener is called with exactly the assigned names, also when handlers issue nested updates). Model tied to the real OptManager by differential "
                   "runs (every reply: outcome, every listener call at every depth with the values it saw, all option values, deferred "
                   "names; save→load values).")
     level_note = ("trusted: Lean kernel; differential tie model↔optmanager.py on generated histories; the YAML library is a parameter "
@@ -238,6 +240,12 @@ class Check(PropertyCheck):
                   "PARTIAL: 'listeners end up observing the restored state' is false for the code (F-C44c, F-C44d) and proved under the "
                   "guards rollback-notification-delivered / quiet / listener concerned by the outer names; accepted_update_… is stated "
                   "for listeners that only accept or reject (for acting listeners that clause is checked by the direct oracle); "
+                  "the flat theorems (typed_always, rejected_update_*, accepted_update_notifies_assigned_names, config_roundtrip_nondefault) are about "
+                  "`run/step`, which the driver does not execute: they apply to the tied model on states whose listeners only accept or reject "
+                  "(nested_model_agrees_with_flat); the *_nested theorems are about `runN/stepN` directly. nested_rejected_update_restores_everything "
+                  "is definitional (shape of coreUpdate) — the content is in …_quiet / …_over_histories. reset() and add_option() with a rejecting "
+                  "listener are not rolled back in code and model (outside `isUpdateOp`; the property speaks of updates); the oracle's rollback clause "
+                  "runs for upd/updk/updd/set/pd, a rejected merge/load is compared through the model tie only. "
                   "deferred_spec_is_parsed_when_declared is stated from the empty manager; relative_path takes $HOME, the password database "
                   "and os.getcwd() as parameters (the tie fixes HOME=/h/me/ and uses the entry root→/root); the YAML parse of the config text stays the library parameter (the tie feeds load() the JSON rendering "
                   "of the data); tuples are not generated for merge. known(): exact classifiers, near misses in "
